@@ -164,6 +164,7 @@ theorem noPattern_applyM (ep : EnfP) (op : MOp) (h : ep.prm = []) :
     simp only [Option.map_some]
     split
     · simp only [Option.map_some, Fresh.syncCache_base, Fresh.syncCache_prm, hd.1, hd.2]
+    · simp only [Option.map_some, Fresh.syncCache_base, Fresh.syncCache_prm, hd.1, hd.2]
     · simp only [Option.map_some, Fresh.syncCache_base, Fresh.syncCache_prm, h]
 
 theorem noPattern_enforce (ep : EnfP) (ctx : EnforceCtx) (custom : Option String) (rvals : List Val) (h : ep.prm = [])
